@@ -513,6 +513,12 @@ fn decode_seq(mut idx: u64, base: u64) -> Vec<usize> {
 
 const GRAPH_VARIANTS: u64 = 4;
 
+/// The operand of case `idx` of sub-space e.
+fn operand_of(idx: u64) -> String {
+    let d = decode_seq(idx / OPERAND_TEMPLATES.len() as u64, OPERAND_CHARS.len() as u64);
+    d.iter().map(|i| OPERAND_CHARS[*i]).collect()
+}
+
 impl Space {
     fn name(&self) -> &'static str {
         match self {
@@ -577,8 +583,7 @@ impl Space {
             Space::Graphs { max_depth } => graph_case(idx, *max_depth),
             Space::Operand { .. } => {
                 let nt = OPERAND_TEMPLATES.len() as u64;
-                let d = decode_seq(idx / nt, OPERAND_CHARS.len() as u64);
-                let operand: String = d.iter().map(|i| OPERAND_CHARS[*i]).collect();
+                let operand = operand_of(idx);
                 let mut c = Case::plain(OPERAND_TEMPLATES[(idx % nt) as usize].replace('X', &operand));
                 c.desc = format!("operand {operand:?}");
                 c.maps = Some(operand_maps());
@@ -1280,6 +1285,11 @@ fn judge(case: &Case, ctx: &Ctx, parse_only: bool) -> Judgement {
             for (mi, w1, errs) in &mapped {
                 let rc1 = &cfgs[*mi];
                 let Some(names) = rc1.names else { continue };
+                if w1.joined != w.joined {
+                    // the two trees do not even spell the same text (reported above as
+                    // not-lossless or as an include error); there is nothing to align
+                    continue;
+                }
                 check_map_effect(&w, w1, &|s: &str| names.contains(s), plain.then_some(errs.as_slice()), &rc1.label, &mut j);
             }
         } else {
@@ -1908,6 +1918,11 @@ impl Shrinker<'_> {
         c
     }
 
+    /// Is a fragment already known to fail with `sig` obtainable from `text` by deletions?
+    fn known_minimal(&self, text: &str, sig: &str) -> bool {
+        self.minimal.get(&self.mkey(sig)).is_some_and(|frags| frags.iter().any(|(f, _)| is_subsequence(f, text)))
+    }
+
     /// key of `minimal`: fragments are only comparable under the same glyph maps
     fn mkey(&self, sig: &str) -> String {
         match &self.maps {
@@ -2123,6 +2138,42 @@ impl Shrinker<'_> {
                     let chars: Vec<String> = cands[i].chars().map(|c| c.to_string()).collect();
                     cur = self.ddmin(chars, sig, &mut budget).concat();
                 }
+                None => break,
+            }
+        }
+        // canonical characters: in tokens that are not plain words (`b--a`, `\\b`, `a1`) and in
+        // single letters, a letter that can be `a` and a digit that can be `0` becomes that, so that
+        // `a--b`, `b--a`, `b--b` share the fragment of `a--a`
+        while budget > 0 && !self.out_of_time() {
+            let units = split_units(&cur);
+            let mut cands: Vec<String> = vec![];
+            for (i, u) in units.iter().enumerate().filter(|(_, u)| !u.ws) {
+                let word = u.text.chars().count() >= 2 && u.text.chars().all(|c| c.is_ascii_alphabetic());
+                if word {
+                    continue;
+                }
+                for (ci, c) in u.text.char_indices() {
+                    let to = if c.is_ascii_alphabetic() && c != 'a' {
+                        'a'
+                    } else if c.is_ascii_digit() && c != '0' {
+                        '0'
+                    } else {
+                        continue;
+                    };
+                    let mut t = u.text.clone();
+                    t.replace_range(ci..ci + c.len_utf8(), &to.to_string());
+                    cands.push(units.iter().enumerate().map(|(k, x)| if k == i { t.as_str() } else { x.text.as_str() }).collect());
+                }
+            }
+            if cands.is_empty() {
+                break;
+            }
+            budget -= cands.len() as i64;
+            let res = vcore::par_for(cands.len(), self.threads, |i| {
+                self.prober.probe(&self.mk(cands[i].clone()), self.fast_timeout_ms).has(sig)
+            });
+            match res.iter().position(|ok| *ok) {
+                Some(i) => cur = cands.swap_remove(i),
                 None => break,
             }
         }
@@ -2379,7 +2430,7 @@ fn main() {
     // debugging aid: C13_SPACES=e,c runs only those sub-spaces (the run then says it is not exhaustive)
     let only: Option<Vec<String>> = std::env::var("C13_SPACES").ok().map(|l| l.split(',').map(|x| x.trim().to_string()).collect());
     let spaces: Vec<Space> = spaces.into_iter().filter(|sp| only.as_ref().is_none_or(|o| o.iter().any(|n| n == sp.name()))).collect();
-    let sweep_budget = Duration::from_secs(tier.pick(35, 12 * 60));
+    let sweep_budget = Duration::from_secs_f64(tier.pick(35.0, 12.0 * 60.0) * vcore::budget_scale());
     let deadline = Instant::now() + sweep_budget;
     let results: Vec<SpaceResult> = spaces.iter().map(|s| run_space(s, deadline)).collect();
 
@@ -2512,7 +2563,24 @@ fn main() {
                 hang_results.get(f.case.root_text()).cloned().unwrap_or(Shrunk::OutOfTime)
             } else {
                 shr.maps = f.case.maps.clone();
-                let r = shr.shrink(f.case.root_text(), &f.sig);
+                let mut text = f.case.root_text().to_string();
+                if f.space == "e" && !shr.known_minimal(&text, &f.sig) {
+                    // the statement around the operand is not part of the failure when the same
+                    // operand fails the same way in a shorter template
+                    let operand = operand_of(f.idx);
+                    let mut ts: Vec<String> = OPERAND_TEMPLATES.iter().map(|t| t.replace('X', &operand)).collect();
+                    ts.sort_by_key(|t| t.len());
+                    for cand in ts {
+                        if cand.len() >= text.len() {
+                            break;
+                        }
+                        if prober.probe(&f.case.with_text(cand.clone()), CASE_TIMEOUT_MS).has(&f.sig) {
+                            text = cand;
+                            break;
+                        }
+                    }
+                }
+                let r = shr.shrink(&text, &f.sig);
                 shr.maps = None;
                 r
             };
